@@ -18,6 +18,7 @@ import (
 	"os/exec"
 	"runtime"
 	"runtime/debug"
+	"sort"
 	"strconv"
 	"strings"
 	"sync"
@@ -353,7 +354,7 @@ func Run(fam *Family, mem uint64, watchdog time.Duration, deadline time.Time, de
 	var mu sync.Mutex
 	type job struct{ item, lo, hi int }
 	var jobs []job
-	const chunk = 4096
+	const chunk = 512
 	for it := 0; it < fam.Items(); it++ {
 		n := fam.Mutants(it)
 		for lo := 0; lo < n; lo += chunk {
@@ -364,6 +365,9 @@ func Run(fam *Family, mem uint64, watchdog time.Duration, deadline time.Time, de
 			jobs = append(jobs, job{it, lo, hi})
 		}
 	}
+	// round-robin over the items: a deadline then cuts the later mutants of every item rather than
+	// all mutants of the later items (whole kinds of input)
+	sort.SliceStable(jobs, func(a, b int) bool { return jobs[a].lo < jobs[b].lo })
 	var next int64
 	var wg sync.WaitGroup
 	t0 := time.Now()
